@@ -31,6 +31,9 @@ Abstracted: ticks, timers and the connection hand-shake are not modelled — `co
 Timing assumption built into one guard: the handler of a failed send buffers the message while the state is
 still Failed or Disconnected (it waits at most two loop iterations for the cancelled task; a reconnect needs
 ≥ 0.5 s).
+Bookkeeping fields for the theorems (no influence on the guards): `everBuf`, `sends`, `fails`, `wire`
+(every attempt with the sequence number on the wire), `discProd` (created while Failed / Disconnected /
+Reconnecting), `owed` / `orderViol` (order clause).
 Core Lean only.
 -/
 namespace OPM.Runner
@@ -89,6 +92,7 @@ structure State where
   everBuf   : List Id := []               -- every message that has been in the buffer
   sends     : List Id := []               -- log of send attempts
   fails     : List Id := []               -- log of failed attempts
+  discProd  : List Id := []               -- messages created while the runner was Failed / Disconnected / Reconnecting
   wire      : List (Id × Nat) := []       -- every attempt as it goes over the wire: (message, sequence number)
   owed      : List (Id × Id) := []        -- (d, s): d was buffered run data of s's run, undelivered when s was posted
   orderViol : Bool := false               -- some s was delivered while an owed d was not
@@ -148,7 +152,8 @@ def violates (s : State) (sid : Id) : Bool :=
 def next (s : State) : Ev → Option State
   | .produce id k =>
     if id = s.kinds.length + 1 then
-      some { s with kinds := s.kinds ++ [k], fresh := s.fresh ++ [id] }
+      some { s with kinds := s.kinds ++ [k], fresh := s.fresh ++ [id],
+                    discProd := if mustBuffer s.st then s.discProd ++ [id] else s.discProd }
     else none
   | .send id q =>
     if id ∈ s.fresh ∧ canPost s.st = true ∧ q = seqFor s id then
